@@ -295,6 +295,8 @@ Definition leak_of_f (c : cfg) (st : astate) (nx : N) (fuse : option N) (o : op)
       | OPop _ v KDrop => take_drop_leak c st v TPop 0 k
       | ORemove _ v idx KDrop => take_drop_leak c st v TRemove idx k
       | OSwapRemove _ v idx KDrop => take_drop_leak c st v TSwapRemove idx k
+      (* the clones made before the panicking one: the half-built clone is dropped with length 0 *)
+      | OClone v _ => next_ids c nx (N.to_nat k)
       (* an insert whose lazy clone panicked has hidden the tail behind the insertion point: it is leaked *)
       | OInsert Erased v idx (SLazy _ src sidx) =>
           match sp_offer_lazy_f c st nx v (Some idx) src sidx, get_a v st with
@@ -1204,6 +1206,14 @@ Proof.
       * pose proof (vis_set_any st v (Some (with_xs av (VecSpec.sp_splice s e ts xs)))) as H2.
         cbn [slot_xs with_xs a_xs] in H2. unfold VecSpec.sp_splice in *.
         rewrite drops_app, drops_map, drops_nexts. perm_count.
+  - (* OClone: the clones made so far are leaked *)
+    unfold sp_clone_f in Hr. destruct (Nat.eqb dst v); [discriminate|]. destruct (get_a v st) as [av|]; [|discriminate].
+    cbv zeta in Hr. destruct (k <? N.of_nat (length (a_xs av))); [|discriminate]. injection Hr as <-.
+    cbn [panic_res s_nx s_st s_evs].
+    replace (nx + k) with (nx + N.of_nat (N.to_nat k)) by lia. rewrite (created_add c nx _ Hnx).
+    assert (Hnd : forall l, drops (map (fun p : N * N => EClone (fst p) (snd p)) l) = []).
+    { induction l as [|p l IH]; [reflexivity|exact IH]. }
+    rewrite Hnd. perm_count.
 Qed.
 End StepOwn.
 
